@@ -2,43 +2,39 @@
 """C03: acknowledgement is final and idempotent."""
 import sys, os
 sys.path.insert(0, os.path.dirname(os.path.dirname(os.path.abspath(__file__))))
-import z3
-from gosym.core import *
 from gosym.runner import Check, load_program
-from gosym import reldb, world
-from gosym.world import *
+from gosym.step import run_transition
+import checks.transitions as tr
+import checks.oracles as O
 
 
 def main():
     chk = Check('C03')
     prog = load_program()
     chk.repo_hash = prog.repo_hash
-    sizes = {'Topic': 1, 'Subscription': 2, 'Message': 2, 'Delivery': 3}
-    chk.bounds = {'tables': sizes, 'id list': '0..3 arbitrary ids'}
-
-    def ack_contract(ex, ob):
-        db = reldb.sym_db(ex, prog, sizes)
-        n = ex.choose(4)
-        ids = sym_uuid_list(ex, 'ackid', n)
-        pre = db.snapshot()
-        act, tx, err = run_action(ex, db, A + 'NewAckDeliveries', [ex.mkslice(ids)], '(*' + A + 'AckDeliveries).Execute')
-        post = db.t
-        nows = stdlib.clock(ex)['nows']
-        d = lambda m: {'ids': [conc(m, i) for i in ids], 'pre': model_values(m, pre)}
-        ob.verify(ex, 'ack-succeeds', err is None, d)
-        for i, p in enumerate(pre['Delivery']):
-            q = post['Delivery'][i]
-            hit = And(p.exists, isin(ex, p.v['id'], ids), p.isnull('completed_at'))
-            ob.verify(ex, 'acked-row-completed[%d]' % i,
-                      Implies(hit, And(q.exists, Not(q.isnull('completed_at')), Or(*[q.v['completed_at'] == t for t in nows]))), d)
-            ob.verify(ex, 'only-completed_at-changes[%d]' % i, row_same(ex, p, q, except_cols=('completed_at',)), d)
-            ob.verify(ex, 'other-rows-untouched[%d]' % i, Implies(Not(hit), row_same(ex, p, q)), d)
-        for e in ('Topic', 'Subscription', 'Message', 'Snapshot'):
-            ob.verify(ex, 'table-untouched:' + e, table_same(ex, pre[e], post[e]), d)
-        ob.verify(ex, 'no-new-deliveries', len(post['Delivery']) == len(pre['Delivery']), d)
-    chk.run('ack-contract', prog, ack_contract, bounds=sizes, setup=world.setup)
+    chk.assumptions += COMMON_ASSUMPTIONS
+    for T in tr.all_transitions():
+        if T.kind in ('create-topic', 'create-sub', 'create-snapshot', 'delete-topic', 'seek'):
+            continue     # do not touch deliveries at all (covered by C02 independence)
+        fs = [O.c03_finality]
+        if T.kind == 'ack':
+            fs.append(O.c03_ack_contract)
+        if T.kind in ('nack', 'delay'):
+            fs.append(O.c03_late_nack_modack)
+        T.oracle = (lambda fs, T: lambda ex, S: [x for f in fs for x in f(ex, S, T)])(fs, T)
+        run_transition(chk, prog, T, max_paths=300000)
+    chk.bounds = {'tables': 'per obligation (see per_obligation.bounds)', 'steps': 1, 'pre-state': 'arbitrary rows satisfying the representation invariant'}
     chk.finish()
 
+
+COMMON_ASSUMPTIONS = [
+    'reldb: bounded symbolic model of the SQL store and the generated ent builders (see DESIGN.md section 4); validated per run by replaying a reachability witness of every obligation on the real build (SQLite)',
+    'pre-state = arbitrary table rows satisfying the representation invariant (unique ids, resolving foreign keys, live <=> deleted_at IS NULL, attempts >= 0, predecessor on same subscription)',
+    'time.Now() = fresh non-decreasing symbolic instants; uuid.New() = fresh distinct ids',
+    'NextDelayFor replaced by its contract (0 <= nominal <= max+2ns, 0 <= fuzz < 1s, deterministic); the contract is established on the real function by C04',
+    'filter parsing/evaluation = uninterpreted predicates filter_valid(str), filter_matches(str, attrs) (connected to the evaluator by C07)',
+    'logging and metrics have no modelled effect',
+]
 
 if __name__ == '__main__':
     main()
